@@ -26,7 +26,10 @@ def tangent(G):
 
 
 def evaluate(g, P, A, label):
-    v, gr = g(P, A, return_grad=True)
+    try:
+        v, gr = g(P, A, return_grad=True)
+    except Exception as e:  # the objectives are total functions of (P, affinity) on the closed simplex
+        raise Violation(f"{label}: evaluating the score and gradient raised {type(e).__name__}: {e} for P of shape {P.shape}")
     v = float(np.asarray(v))
     gr = np.asarray(gr, dtype=float)
     if not np.isfinite(v) or not np.all(np.isfinite(gr)):
